@@ -1,4 +1,5 @@
 import Rdpgw.Lemmas.Frame
+import Rdpgw.Model.Tunnel
 
 /-!
 # C08 — packet boundaries come from length fields, not from transport segmentation
@@ -106,6 +107,15 @@ theorem incomplete_ends (ps : List Pkt) (h : ∀ p ∈ ps, p.wf) (p : Pkt) (hp :
       simp [this]
   rw [parseStream_need hc, hlk]
   simp
+
+/-- **Same effects.** Whatever the segmentation, the gateway processes the same requests and
+    produces the same responses, dial attempts and bytes towards the host, and ends the same way —
+    for every configuration and every behaviour of the callbacks. -/
+theorem same_effects (cfg : Tunnel.Cfg) (env : Tunnel.Env) (segs₁ segs₂ : List Bytes)
+    (h : segs₁.flatten = segs₂.flatten) :
+    Tunnel.runStream cfg env segs₁ = Tunnel.runStream cfg env segs₂ := by
+  unfold Tunnel.runStream
+  rw [segmentation_independent segs₁ segs₂ h]
 
 /-! ### The pinned algorithm did not have the property (D1, D2): closed witnesses -/
 
